@@ -518,9 +518,16 @@ class VN:
 
     def ev_IfExp(self, e, st):
         c = self._as_term(self.ev(e.test, st))
-        if any(c == k for k in st.conds):
+        if is_tuple(c):
+            c = TRUE if len(c) > 0 else FALSE
+        fr = c.as_fraction() if isinstance(c, T.Poly) else None
+        if c == TRUE or (fr is not None and fr != 0):
             return self.ev(e.body, st)
-        if any(negate(c) == k for k in st.conds):
+        if c == FALSE or (fr is not None and fr == 0):
+            return self.ev(e.orelse, st)
+        if all(any(x == k for k in st.conds) for x in conjuncts(c)):
+            return self.ev(e.body, st)
+        if all(any(x == k for k in st.conds) for x in conjuncts(negate(c))):
             return self.ev(e.orelse, st)
         return T.app("ifexp", c, self._as_term(self.ev(e.body, st)), self._as_term(self.ev(e.orelse, st)))
 
@@ -855,6 +862,29 @@ class VN:
         sub = VN(self.model, fn, self.real, self.scalars, self.inline, self.max_depth, self.depth + 1,
                  self.call_hook, self.name_hook if is_self_call else None, self.loop_hook)
         outs = [o_ for o_ in sub.run(fn.body, State(env, list(st.conds))) if o_.status != "raise"]
+        if len(outs) > 1 and len(outs) <= 8 and all(o_.status == "return" and o_.ret is not None for o_ in outs):
+            # a pure helper with several return paths: its value is the conditional expression over its own path conditions (the
+            # caller's final states are split on it again, so `h(x)` reads like the if/else it replaces)
+            n0 = len(st.conds)
+            for o_ in outs:
+                for p_ in env:
+                    if p_ in o_.env and o_.env[p_] is not env[p_] and o_.env[p_] != env[p_] and p_ in back and not p_.startswith("self"):
+                        rebound_ = any(isinstance(x_, ast.Name) and x_.id == p_ and isinstance(x_.ctx, ast.Store) for x_ in ast.walk(fn.node))
+                        if not rebound_:
+                            raise Unrecognised("inlined helper %s updates its argument on some path" % fn.qual, call)
+
+            def cond_of(o_):
+                extra = o_.conds[n0:]
+                return extra[0] if len(extra) == 1 else (T.app("and", *extra) if extra else TRUE)
+
+            def merge(vals):
+                if all(is_tuple(v) for v, _ in vals) and len({len(v) for v, _ in vals}) == 1:
+                    return tuple(merge([(v[i], c) for v, c in vals]) for i in range(len(vals[0][0])))
+                acc = self._as_term(vals[-1][0])
+                for v, c in reversed(vals[:-1]):
+                    acc = T.app("ifexp", c, self._as_term(v), acc)
+                return acc
+            return merge([(o_.ret, cond_of(o_)) for o_ in outs])
         if len(outs) != 1:
             raise Unrecognised("inlined helper %s has %d paths" % (fn.qual, len(outs)), call)
         o = outs[0]
@@ -1105,12 +1135,16 @@ class VN:
                 s2.status, s2._broke = st.status, st._broke
                 if cond is not None:
                     s2.conds.append(cond)
-                repl = val if isinstance(val, T.Poly) else None
+                repl = val if isinstance(val, (T.Poly, tuple)) else None
                 if repl is None:
                     out.append(st)
                     break
-                s2.ret = _replace_atom(st.ret, atom, repl) if isinstance(st.ret, (T.Poly, tuple)) else st.ret
-                s2.env = {k: (_replace_atom(v, atom, repl) if isinstance(v, (T.Poly, tuple)) else v) for k, v in st.env.items()}
+                try:
+                    s2.ret = _replace_atom(st.ret, atom, repl) if isinstance(st.ret, (T.Poly, tuple)) else st.ret
+                    s2.env = {k: (_replace_atom(v, atom, repl) if isinstance(v, (T.Poly, tuple)) else v) for k, v in st.env.items()}
+                except TypeError:
+                    out.append(st)
+                    break
                 work.append(s2)
         return out
 
@@ -1157,7 +1191,84 @@ class VN:
             raise Unrecognised("assignment target %s" % unparse(tgt), node)
         st.env[k] = val
 
+    def _unknown_helper(self, call):
+        """the callee, if `call` is a call of a function/method the rules have never seen (introduced by a later edit)"""
+        if self.model is None or self.func is None or KNOWN_FUNCS is None or self.depth >= self.max_depth or not isinstance(call, ast.Call):
+            return None
+        if self.call_hook is not None:
+            pass
+        tgt = self.model.resolve_call(self.func, call)
+        if tgt[0] == "repo" and tgt[1].qual not in KNOWN_FUNCS and not tgt[1].name.startswith("__"):
+            return tgt[1]
+        return None
+
+    def inline_states(self, fn, call, st):
+        """statement-level inlining of an unknown helper that has several paths and/or updates self.*: the caller's state is forked
+        once per (non-raising) path of the helper; returns [(state, returned value)]"""
+        b = self.model.bind(call, fn)
+        env = {}
+        back = {}
+        for p, node in b.items():
+            if isinstance(node, (list, dict)):
+                raise Unrecognised("inline of varargs call", call)
+            env[p] = self.ev(node, st)
+            k = self.key_of(node)
+            if k is not None:
+                back[p] = k
+        is_self_call = isinstance(call.func, ast.Attribute) and isinstance(call.func.value, ast.Name) and call.func.value.id == "self" and fn.cls is not None
+        if is_self_call:
+            for k0, v0 in st.env.items():
+                if k0 == "self" or k0.startswith("self."):
+                    env.setdefault(k0, v0)
+        sub = VN(self.model, fn, self.real, self.scalars, self.inline, self.max_depth, self.depth + 1,
+                 self.call_hook, self.name_hook if is_self_call else None, self.loop_hook)
+        outs = [o_ for o_ in sub.run(fn.body, State(env, list(st.conds), alias=st.alias if is_self_call else None)) if o_.status != "raise"]
+        if not outs or len(outs) > 16:
+            raise Unrecognised("inlined helper %s has %d paths" % (fn.qual, len(outs)), call)
+        rebound = set()
+        for n_ in ast.walk(fn.node):
+            tg_ = n_.targets if isinstance(n_, ast.Assign) else ([n_.target] if isinstance(n_, (ast.AnnAssign, ast.For)) else [])
+            for t_ in tg_:
+                for x_ in ast.walk(t_):
+                    if isinstance(x_, ast.Name) and isinstance(x_.ctx, ast.Store):
+                        rebound.add(x_.id)
+        res = []
+        for o in outs:
+            s2 = State(st.env, o.conds, st.events, st.alias)
+            s2.events.extend(o.events)
+            for p, k in back.items():
+                if p in rebound:
+                    continue
+                if o.env.get(p) is not env[p] and o.env.get(p) != env[p]:
+                    s2.update_in_place(k, o.env[p])
+            if is_self_call:
+                for k0, v0 in o.env.items():
+                    if k0.startswith("self.") and (k0 not in st.env or st.env[k0] is not v0):
+                        s2.env[k0] = v0
+            res.append((s2, o.ret if o.status == "return" and o.ret is not None else NONE))
+        return res
+
     def stmt(self, s, st):
+        # a call of an unknown helper as a whole statement (or as the whole right-hand side) is read through path by path
+        callnode = s.value if isinstance(s, (ast.Expr, ast.Assign)) and isinstance(getattr(s, "value", None), ast.Call) else None
+        if callnode is not None:
+            fn = self._unknown_helper(callnode)
+            if fn is not None:
+                try:
+                    pairs = self.inline_states(fn, callnode, st.fork())
+                except Unrecognised:
+                    pairs = None
+                if pairs is not None and (len(pairs) > 1 or any(k.startswith("self.") for p_ in pairs for k in p_[0].env if p_[0].env.get(k) is not st.env.get(k))):
+                    outs = []
+                    for s2, rv in pairs:
+                        if isinstance(s, ast.Assign):
+                            for t in s.targets:
+                                self.assign(t, rv, s2, s)
+                                tk = self.key_of(t) if isinstance(t, (ast.Name, ast.Attribute)) else None
+                                if tk is not None:
+                                    s2.rebind(tk)
+                        outs.append(s2)
+                    return outs
         if isinstance(s, ast.Assign):
             v = self.ev(s.value, st)
             srck = self.key_of(s.value) if isinstance(s.value, (ast.Name, ast.Attribute)) else None
@@ -1411,6 +1522,9 @@ def _replace_atom(t, old_atom, new_term):
             return tuple(rb(x) for x in p)
         if not isinstance(p, T.Poly):
             return p
+        if isinstance(new_term, tuple):
+            if p.single_atom() == old_atom:
+                return new_term  # a sequence-valued replacement can only stand where the atom is a whole argument
         out = T.Poly()
         for m, c in p.t.items():
             term = T.Poly({frozenset(): c})
@@ -1421,10 +1535,18 @@ def _replace_atom(t, old_atom, new_term):
 
     def ra(a):
         if a == old_atom:
+            if isinstance(new_term, tuple):
+                raise TypeError("sequence inside arithmetic")
             return new_term
         if a[0] == "app":
             args = [rb(T.dec(x)) for x in a[2]]
-            return T.app(a[1], *args, real=a[3])
+            if a[1] == "concat":
+                acc = args[0]
+                for x in args[1:]:
+                    acc = concat(acc, x)
+                return acc if isinstance(acc, T.Poly) else T.app("concat", acc)
+            # a real-valued application stays real; otherwise realness is recomputed from the new arguments
+            return T.app(a[1], *args, real=True if a[3] else None)
         if a[0] == "cmp":
             inner = rb(T.from_key(a[1]))
             return inner if len(inner.t) == 1 else T.atom_poly(("cmp", inner.key()))
